@@ -268,6 +268,9 @@ fn c10_parent(args: &Args) {
     let workers = args.u64("workers", std::thread::available_parallelism().map(|n| n.get() as u64).unwrap_or(8)).max(1);
     let scenarios = args.u64("scenarios", if thorough { 100_000 } else { 2_400 });
     let deadline = args.u64("max-wall-s", if thorough { 1800 } else { 150 });
+    // The parent never runs the tree under test inside its own process: reference emissions come from the shipped
+    // binary, executions from worker / c10-try subprocesses. A tree that aborts can only take a subprocess with it.
+    exec::REFERENCE_VIA_BINARY.store(true, std::sync::atomic::Ordering::SeqCst);
     let e2_only_requested = args.get("e2-only").is_some();
     let scenarios = if e2_only_requested { 0 } else { scenarios };
     if e2_only_requested {
@@ -687,8 +690,8 @@ fn c10_try(args: &Args) {
     let path = args.pos.first().cloned().unwrap_or_else(|| harness_error("usage: vcheck c10-try FILE"));
     let r: Replay = serde_json::from_str(&std::fs::read_to_string(&path).unwrap_or_else(|e| harness_error(&format!("{path}: {e}")))).unwrap_or_else(|e| harness_error(&format!("{path}: {e}")));
     let mut scratch = Scratch::new("try");
-    let (violations, digest, run) = c10::replay(&r, &mut scratch, false);
-    let out = c10::TryOut { violations, digest, decisions: run.result.trace.decisions.clone(), vs_calm: run.result.trace.vs_calm.clone() };
+    let (violations, digest, run, facts) = c10::replay_with_facts(&r, &mut scratch, false);
+    let out = c10::TryOut { violations, digest, decisions: run.result.trace.decisions.clone(), vs_calm: run.result.trace.vs_calm.clone(), stdout: String::from_utf8_lossy(&run.result.sim.stdout).into_owned(), verdict: facts.verdict };
     println!("{}", serde_json::to_string(&out).unwrap());
 }
 
